@@ -30,6 +30,7 @@ import (
 	"bytes"
 	"encoding/json"
 	"fmt"
+	"math"
 	"os"
 	"os/exec"
 	"path/filepath"
@@ -55,13 +56,16 @@ type c12rStep struct {
 }
 
 type c12rSpec struct {
-	MaxCores  int        `json:"localcores"`
-	MaxMemGB  int        `json:"localmem"`
-	MaxVmemMB int64      `json:"localvmem_mb"`
-	EV        int        `json:"extra_vmem_gb"`
-	LimitLoad bool       `json:"limit_loadavg"`
-	Steps     []c12rStep `json:"steps"`
-	Dir       string     `json:"dir"`
+	MaxCores  int   `json:"localcores"`
+	MaxMemGB  int   `json:"localmem"`
+	MaxVmemMB int64 `json:"localvmem_mb"`
+	EV        int   `json:"extra_vmem_gb"`
+	LimitLoad bool  `json:"limit_loadavg"`
+	// run the worker as uid/gid 65534 (whose only processes are the worker's own) with
+	// RLIMIT_NPROC soft = hard = Nproc: a small `ulimit -u` (0 = leave the limit alone)
+	Nproc int        `json:"ulimit_u,omitempty"`
+	Steps []c12rStep `json:"steps"`
+	Dir   string     `json:"dir"`
 }
 
 type c12rSem struct {
@@ -77,6 +81,7 @@ type c12rOut struct {
 	Kind      string                `json:"kind"`
 	Job       int                   `json:"job,omitempty"`
 	Outcome   string                `json:"outcome,omitempty"` // enqueue: started | parked | refused | unsettled; finish: ended | unsettled
+	Amounts   [4]int64              `json:"amounts,omitempty"` // enqueue: what Enqueue acquires (cores, mem, vmem, procs)
 	ObsBefore *core.VerifRefreshObs `json:"obs_before,omitempty"`
 	ObsAfter  *core.VerifRefreshObs `json:"obs_after,omitempty"`
 	Before    [4]c12rSem            `json:"before"`
@@ -157,6 +162,20 @@ func c12RefreshWorker(c *Ctx) {
 	emit := func(o c12rOut) {
 		j, _ := json.Marshal(o)
 		fmt.Printf("C12R %s\n", j)
+	}
+	if spec.Nproc > 0 {
+		os.Chmod(spec.Dir, 0o777)
+		lim := syscall.Rlimit{Cur: uint64(spec.Nproc), Max: uint64(spec.Nproc)}
+		const rlimitNproc = 6
+		if err := syscall.Setrlimit(rlimitNproc, &lim); err != nil {
+			fatal("setrlimit: %v", err)
+		}
+		if err := syscall.Setgid(65534); err != nil {
+			fatal("setgid: %v", err)
+		}
+		if err := syscall.Setuid(65534); err != nil {
+			fatal("setuid: %v", err)
+		}
 	}
 	ljm := core.VerifNewProdLocalJobManager(spec.MaxCores, spec.MaxMemGB, spec.MaxVmemMB,
 		&core.JobManagerSettings{ThreadsPerJob: 1, MemGBPerJob: 1, ExtraVmemGB: spec.EV}, spec.LimitLoad)
@@ -245,6 +264,9 @@ func c12RefreshWorker(c *Ctx) {
 			jobDef := core.JobResources{Threads: float64(st.T64) / 64, MemGB: float64(st.MemMb) / 1024, VMemGB: float64(st.VmemMb) / 1024}
 			fq := fmt.Sprintf("ID.c12r.PIPE.ST%d", st.Job)
 			res := core.VerifNodeJobReqs(ljm, ljm, nil, fq, true, nil, &jobDef, core.STAGE_TYPE_CHUNK)
+			// what Enqueue will acquire (its own arithmetic; c12_local ties it to the model)
+			centi := int64(math.Ceil(res.Threads * 100))
+			out.Amounts = [4]int64{centi, int64(math.Ceil(res.MemGB * 1024)), int64(res.VMemGB) * 1024, 15 + (centi+99)/100}
 			ljm.Enqueue("/bin/sh", []string{"-c", script}, map[string]string{}, md, &res, fq, 0, 0, false)
 			enqueued++
 			enqIDs = append(enqIDs, st.Job)
@@ -388,7 +410,14 @@ var c12rSeq int
 func c12rRun(c *Ctx, sp c12rSpec) (outs []c12rOut, cmdline string, err error) {
 	c12rSeq++
 	sp.Dir = filepath.Join(c.Scratch, fmt.Sprintf("refresh%d", c12rSeq))
+	if sp.Nproc > 0 {
+		// the worker drops to uid 65534: a directory it can reach (the scratch root is 0700)
+		sp.Dir = filepath.Join(os.TempDir(), fmt.Sprintf("verif-C12-nproc-%d-%d", os.Getpid(), c12rSeq))
+	}
 	os.MkdirAll(sp.Dir, 0o755)
+	if sp.Nproc > 0 {
+		os.Chmod(sp.Dir, 0o777)
+	}
 	defer os.RemoveAll(sp.Dir)
 	sb, _ := json.Marshal(sp)
 	specFile := filepath.Join(sp.Dir, "spec.json")
@@ -467,6 +496,35 @@ func c12rJudge(c *Ctx, sp c12rSpec, outs []c12rOut, countHist bool) (vs []*c12rV
 	}
 	if len(outs) != len(sp.Steps) {
 		return nil, 0, 0, fmt.Sprintf("worker reported %d of %d steps", len(outs), len(sp.Steps))
+	}
+	// the semaphores the real setupSemaphores created vs the model's account (localSizes):
+	// cores, memory, vmem iff configured, and the process semaphore with mrp's standing
+	// reservation of startingThreadCount = 45, i.e. maxSize - 45 left for jobs
+	if len(outs) == 0 {
+		return nil, 0, 0, ""
+	}
+	if b := outs[0].Before; true {
+		procs := "-"
+		real := []string{strconv.FormatInt(b[0].Max, 10), strconv.FormatInt(b[1].Max, 10)}
+		if b[2].Present {
+			real = append(real, strconv.FormatInt(b[2].Max, 10))
+		}
+		if b[3].Present {
+			procs = strconv.FormatInt(b[3].Max-45, 10)
+			real = append(real, procs)
+			if b[3].Res != 45 {
+				add(&c12rVerdict{"correspondence", "C12:refresh:model-mismatch",
+					fmt.Sprintf("before the first step the process semaphore has Reserved()=%d; setupSemaphores' standing reservation (startingThreadCount) is 45", b[3].Res), 0})
+			}
+		}
+		rep := c.Drv.Ask("C12.cfgsizes", fmt.Sprintf("%d,%d,%d,1,1,%d", sp.MaxCores, sp.MaxMemGB, sp.MaxVmemMB, sp.EV), procs, "0,0,0,0")
+		f := strings.Split(rep, "|")
+		if len(f) != 3 || f[0] != "1" || f[1] != strings.Join(real, ",") {
+			add(&c12rVerdict{"correspondence", "C12:refresh:model-mismatch",
+				fmt.Sprintf("semaphores created by setupSemaphores (sizes left for jobs) %v; model Sane|localSizes|… = %s", real, rep), 0})
+		} else if countHist {
+			r.hist("refresh_setup_sizes_compared")
+		}
 	}
 	var lastRefresh *c12rOut
 	for i := range outs {
@@ -586,6 +644,55 @@ func c12rJudge(c *Ctx, sp c12rSpec, outs []c12rOut, countHist bool) (vs []*c12rV
 			}
 			lastRefresh = o
 		case "enqueue":
+			// the outcome the model predicts from the semaphores as they were: Acquire in
+			// acquisition order on the semaphores that exist (Martian.Semaphore.step)
+			{
+				want := "started"
+				for k, b := range o.Before {
+					if !b.Present {
+						continue
+					}
+					ws := "."
+					if len(b.Waiting) > 0 {
+						p := make([]string, len(b.Waiting))
+						for j, a := range b.Waiting {
+							p[j] = strconv.FormatInt(a, 10)
+						}
+						ws = strings.Join(p, ",")
+					}
+					rep := c.Drv.Ask("C12.acq", fmt.Sprintf("%d,%d,%d", b.Max, b.Cur, b.Res), ws, strconv.FormatInt(o.Amounts[k], 10))
+					f := strings.SplitN(rep, ":", 4)
+					if len(f) != 4 {
+						add(&c12rVerdict{"correspondence", "C12:refresh:driver-bad-op", "driver reply " + rep, i})
+						break
+					}
+					if strings.HasPrefix(f[3], "g") {
+						continue
+					}
+					if strings.HasPrefix(f[3], "x") {
+						want = "refused"
+					} else {
+						want = "parked on " + c12rSemNames[k]
+					}
+					break
+				}
+				got := o.Outcome
+				if got == "parked" {
+					for k, a := range o.After {
+						if a.Present && len(a.Waiting) > len(o.Before[k].Waiting) {
+							got = "parked on " + c12rSemNames[k]
+						}
+					}
+				}
+				if countHist {
+					r.hist("refresh_enqueue_outcomes_compared")
+				}
+				if got != want {
+					add(&c12rVerdict{"correspondence", "C12:refresh:enqueue-outcome-mismatch",
+						fmt.Sprintf("step %d: job %d (%s; Enqueue acquires cores/mem/vmem/procs %v) was %s; the model, from the semaphores before the call, says %s",
+							i, o.Job, sp.Steps[i].What, o.Amounts, got, want), i})
+				}
+			}
 			if o.Outcome == "parked" && lastRefresh != nil && lastRefresh.Step == i-1 {
 				for k, a := range o.After {
 					if !a.Present || len(a.Waiting) == 0 || len(o.Before[k].Waiting) != 0 {
@@ -657,6 +764,55 @@ func runC12Refresh(c *Ctx) {
 			}
 			reported[v.key]++
 			c12rReport(c, sp, v, cmdline)
+		}
+	}
+	c12rNproc(c)
+}
+
+// c12rNproc: a small `ulimit -u`.  The worker runs as uid 65534 (so that "the user's
+// processes" are its own few threads) with RLIMIT_NPROC = 45 + need + delta: the real
+// setupSemaphores creates the process semaphore with maxSize = the rlimit and mrp's standing
+// Acquire(45).  A job needing `need` processes must be refused (need > rlimit), started
+// (need <= rlimit - 45) or — between the two — parked for ever although need <= maxSize and
+// CurrentSize = maxSize: exactly what Martian.Semaphore.step says
+// (Props.C12.standing_reservation_parks_request_between_sizes).
+func c12rNproc(c *Ctx) {
+	r := c.Res
+	for _, kind := range []string{"between", "fits", "above"} {
+		cores := 1 + c.Rng.Intn(3)
+		sp := c12rSpec{MaxCores: cores, MaxMemGB: 1}
+		threads := int64(1 + c.Rng.Intn(cores))
+		need := 15 + int(threads)
+		switch kind {
+		case "between":
+			sp.Nproc = 45 + need - 1 - c.Rng.Intn(3)
+		case "fits":
+			sp.Nproc = 45 + need + c.Rng.Intn(3)
+		default:
+			sp.MaxCores, threads = 40, 40
+			need = 55
+			sp.Nproc = 47 + c.Rng.Intn(8)
+		}
+		sp.Steps = []c12rStep{{Kind: "enqueue", Job: 0, T64: threads * 64, MemMb: 512, What: fmt.Sprintf("needs %d processes", need)},
+			{Kind: "refresh"}, {Kind: "refresh"}}
+		outs, cmdline, err := c12rRun(c, sp)
+		vs, _, _, skip := c12rJudge(c, sp, outs, false)
+		if len(vs) == 0 && (skip != "" || err != nil || len(outs) != 3) {
+			r.note("small-ulimit scenario (%s) not judged: %s %v", kind, skip, err)
+			continue
+		}
+		r.hist("refresh_small_ulimit_scenarios")
+		for _, v := range vs {
+			c12rReport(c, sp, v, cmdline)
+		}
+		if kind == "between" && len(vs) == 0 {
+			p := outs[0].After[3]
+			if outs[0].Outcome == "parked" && len(p.Waiting) == 1 && p.Cur == p.Max && len(outs[2].After[3].Waiting) == 1 {
+				r.note("witness standing_reservation_parks_request_between_sizes replays on the real code: ulimit -u %d, a job needing %d processes is not refused (%d <= maxSize %d) and waits for ever on the process semaphore with CurrentSize()=%d=maxSize, Reserved()=%d (mrp's own 45 + nothing), also after two refreshes — documented limit (the process rlimit is not a configured martian limit; martian only prints 'process count limit is low')",
+					sp.Nproc, need, need, p.Max, p.Cur, p.Res)
+			} else {
+				r.note("witness standing_reservation_parks_request_between_sizes did not replay: %+v", outs)
+			}
 		}
 	}
 }
